@@ -181,18 +181,10 @@ def run(ctx):
               "field names are routed to setattr(member, ...)")
     # generated code fragments
     gen = ctx.anchor_func("flow.record.base._generate_record_class")
-    frags = []
-    for n in walk_no_nested(gen):
-        if isinstance(n, (ast.Constant, ast.BinOp, ast.JoinedStr)) and not isinstance(getattr(n, "_parent", None), (ast.BinOp,)):
-            try:
-                v = prog.fold(base, n)
-            except NotConst:
-                continue
-            if isinstance(v, str) and v.startswith("\t\t") and ("__self" in v or "__cls" in v):
-                frags.append((n, v))
+    frags = [(n, v) for n, v in generated_fragments(prog, base, gen) if v.startswith("        ") and ("__self" in v or "__cls" in v)]
     ctx.floor("R5.1", "generated-code fragments in _generate_record_class", len(frags), 4)
     for n, v in frags:
-        code = _instantiate(v)
+        code = v
         try:
             tree = ast.parse(textwrap.dedent(code))
         except SyntaxError:
@@ -550,11 +542,60 @@ def check_naive_utc(ctx, rule):
                           key=rule + ":datetime.__new__:copy-drops-fold")
 
 
+def generated_fragments(prog, module, gen):
+    """(node, text) for every piece of generated source in the code generator: string constants / concatenations, f-strings and
+    `<template>.format(...)` calls, each rendered with its placeholders replaced by the identifier `x`.  The three spellings of one
+    template line give the same text."""
+    from ..core import copy_ast
+    from ..strsym import render, text_structure
+
+    out = []
+    consumed = set()
+    for n in walk_no_nested(gen):
+        if id(n) in consumed:
+            continue
+        e = None
+        if isinstance(n, ast.Call) and isinstance(n.func, ast.Attribute) and n.func.attr == "format" and not isinstance(getattr(n, "_parent", None), ast.Attribute):
+            try:
+                recv = prog.fold(module, n.func.value)
+            except NotConst:
+                recv = None
+            if isinstance(recv, str):
+                e = copy_ast(n)
+                e.func.value = ast.Constant(value=recv)
+        elif isinstance(n, ast.JoinedStr):
+            e = n
+        elif isinstance(n, (ast.Constant, ast.BinOp)) and not isinstance(getattr(n, "_parent", None), (ast.BinOp, ast.JoinedStr, ast.FormattedValue)):
+            par = getattr(n, "_parent", None)
+            if isinstance(par, ast.Attribute) and par.attr == "format":
+                continue  # handled as the receiver of .format
+            try:
+                v = prog.fold(module, n)
+            except NotConst:
+                v = None
+            if isinstance(v, str):
+                # a plain constant that is itself a str.format template further on keeps its {placeholders}: instantiate them
+                out.append((n, _instantiate(v)))
+                for x in ast.walk(n):
+                    consumed.add(id(x))
+            continue
+        if e is None:
+            continue
+        for x in ast.walk(n):
+            consumed.add(id(x))
+        out.append((n, render(text_structure(gen, e, follow=False)).replace("\t", "    ")))
+    return out
+
+
 def _instantiate(fragment: str) -> str:
     """Replace str.format placeholders of a generated-code fragment by a canonical identifier."""
     out = []
-    for lit, fname, spec, conv in string.Formatter().parse(fragment):
-        out.append(lit)
-        if fname is not None:
-            out.append("x")
+    try:
+        for lit, fname, spec, conv in string.Formatter().parse(fragment):
+            out.append(lit)
+            if fname is not None:
+                out.append("x")
+    except ValueError:
+        # not a format template (a lone brace of generated dict syntax)
+        return fragment.replace("\t", "    ")
     return "".join(out).replace("\t", "    ")
